@@ -990,7 +990,7 @@ def run_history(ctx, res, rng):
                                               % (leaked[0], leaked[1], leaked[2][0], O.FP_BASELINE['err'])})
             # (b) probes after the history, compared with the fresh state
             for (ch, p), want in sorted(fresh.items()):
-                if not thorough and len(seq) == 1 and ch != 'evaluator' and hash_slot(seq[0][1], p) % 3:
+                if not thorough and (ch != 'evaluator' or len(seq) > 1) and hash_slot(seq[0][1] + ch, p) % 3:
                     continue
                 O_before = dict(np.geterr())
                 got = history_step_noguard(ch, p, graders)
@@ -1006,6 +1006,7 @@ def run_history(ctx, res, rng):
             del O.FP_LEAKS[:]
     res.distribution['history_sequences'] = len(sequences)
     res.distribution['history_probes'] = n
+    return sub
 
 
 # ------------------------------------------------------------------------------------------------
@@ -1108,7 +1109,9 @@ def probe_outcomes():
 def _fresh_main():
     import json
     import sys
-    sys.stdout.write('@@FRESH ' + json.dumps(probe_outcomes()) + '\n')
+    out = probe_outcomes()
+    out.update({'cons|' + k: v for k, v in construction_probe_outcomes().items()})
+    sys.stdout.write('@@FRESH ' + json.dumps(out) + '\n')
 
 
 def fresh_interpreter_outcomes():
@@ -1128,6 +1131,145 @@ def fresh_interpreter_outcomes():
         if line.startswith('@@FRESH '):
             return json.loads(line[8:])
     return None
+
+
+# ------------------------------------------------------------------------------------------------
+# construction-history stream: graders that delete / override default constants or functions (documented features) must
+# not change what ANY OTHER grader, built afterwards, sees: i, j, e, pi keep their standard values and the default
+# functions their definitions, in every grader class and under every allow_inf value
+# ------------------------------------------------------------------------------------------------
+CONST_VALUE = {'pi': '3.141592653589793', 'e': '2.718281828459045', 'i': 'sqrt(-1)', 'j': 'sqrt(-1)'}
+FUNC_PROBES = [('sin(pi/2)', '1'), ('cos(0)', '1'), ('exp(0)+ln(e)', '2'), ('sqrt(4)+abs(-1)', '3'), ('arctan2(0,1)', '1.5707963267948966')]
+
+
+def _grader_class(name):
+    import mitxgraders
+    return getattr(mitxgraders, name)
+
+
+def _zero(x):
+    return 0 * x
+
+
+def build_perturber(d):
+    """JSON-able descriptor -> the grader; descriptors: {'cls', 'kwargs', optional 'subgrader' descriptor, 'zero_funcs': [...]}"""
+    kwargs = dict(d.get('kwargs', {}))
+    if d.get('zero_funcs'):
+        kwargs['user_functions'] = {k: _zero for k in d['zero_funcs']}
+    if d.get('subgrader'):
+        kwargs['subgrader'] = build_perturber(d['subgrader'])
+    return _grader_class(d['cls'])(**kwargs)
+
+
+def perturber_descriptors():
+    out = []
+    names = ['i', 'j', 'e', 'pi']
+    for cls, answer in (('FormulaGrader', '1'), ('NumericalGrader', '1'), ('MatrixGrader', '1')):
+        for allow_inf in ((False, True) if cls != 'MatrixGrader' else (False,)):
+            base = {'answers': answer, 'allow_inf': allow_inf} if cls != 'MatrixGrader' else {'answers': answer}
+            for c in names + (['infty'] if allow_inf else []):
+                out.append({'cls': cls, 'kwargs': dict(base, user_constants={c: None}), 'input': '1'})
+                if c != 'infty':
+                    out.append({'cls': cls, 'kwargs': dict(base, user_constants={c: 2.5}, suppress_warnings=True), 'input': '1'})
+            out.append({'cls': cls, 'kwargs': dict(base, user_constants={c: None for c in names}), 'input': '1'})
+            out.append({'cls': cls, 'kwargs': dict(base, suppress_warnings=True), 'zero_funcs': ['sin', 'exp', 'sqrt'], 'input': '1'})
+            if cls == 'FormulaGrader':
+                out.append({'cls': cls, 'kwargs': dict(base, answers='pi', variables=['pi'], suppress_warnings=True), 'input': 'pi'})
+                out.append({'cls': cls, 'kwargs': dict(base, whitelist=['sin']), 'input': '1'})
+                out.append({'cls': cls, 'kwargs': dict(base, blacklist=['exp', 'cos']), 'input': '1'})
+    for c in names:
+        out.append({'cls': 'IntervalGrader', 'kwargs': {'answers': '[0,1]'}, 'input': '[0,1]',
+                    'subgrader': {'cls': 'NumericalGrader', 'kwargs': {'allow_inf': True, 'tolerance': 1e-13, 'user_constants': {c: None}}}})
+    out.append({'cls': 'IntervalGrader', 'kwargs': {'answers': '[0,1]'}, 'input': '[0,1]'})
+    out.append({'cls': 'SumGrader', 'kwargs': {'answers': {'lower': '1', 'upper': '3', 'summand': 'n', 'summation_variable': 'n'},
+                                               'input_positions': {'summand': 1}, 'user_constants': {'pi': None}}, 'input': 'n'})
+    return out
+
+
+def construction_probes():
+    """(key, descriptor, input, want_ok): freshly BUILT graders of each class / allow_inf value asked for each constant and a
+    few default functions; the documented answer is ok=True for every one of them"""
+    out = []
+    for cls in ('FormulaGrader', 'NumericalGrader', 'MatrixGrader'):
+        for allow_inf in ((False, True) if cls != 'MatrixGrader' else (False,)):
+            extra = {'allow_inf': allow_inf} if cls != 'MatrixGrader' else {}
+            for c in sorted(CONST_VALUE):
+                out.append(('const:%s:%s:%s' % (cls, allow_inf, c), {'cls': cls, 'kwargs': dict(extra, answers=CONST_VALUE[c], tolerance=1e-12)}, c))
+            for text, val in FUNC_PROBES:
+                out.append(('func:%s:%s:%s' % (cls, allow_inf, text), {'cls': cls, 'kwargs': dict(extra, answers=val, tolerance=1e-9)}, text))
+            if allow_inf:
+                out.append(('const:%s:%s:infty' % (cls, allow_inf), {'cls': cls, 'kwargs': dict(extra, answers='infty')}, 'infty'))
+    out.append(('const:IntervalGrader:pi', {'cls': 'IntervalGrader', 'kwargs': {'answers': '[0,3.141592653589793]'}}, '[0,pi]'))
+    out.append(('const:IntervalGrader:e', {'cls': 'IntervalGrader', 'kwargs': {'answers': '[0,e)'}}, '[0,2.718281828459045)'))
+    out.append(('const:IntervalGrader:infty', {'cls': 'IntervalGrader', 'kwargs': {'answers': '[0,infty)'}}, '[0,infty)'))
+    out.append(('const:SumGrader:pi', {'cls': 'SumGrader', 'kwargs': {'answers': {'lower': '1', 'upper': '2', 'summand': 'pi',
+                                                                                 'summation_variable': 'n'},
+                                                                     'input_positions': {'summand': 1}}}, '3.141592653589793'))
+    return out
+
+
+def run_probe(desc, text):
+    from mitxgraders.exceptions import StudentFacingError
+    try:
+        with warnings.catch_warnings():
+            warnings.simplefilter('ignore')
+            r = build_perturber(desc)(None, text)
+        return ['graded', r.get('ok')]
+    except Exception as e:      # noqa
+        return ['exc', type(e).__name__, isinstance(e, StudentFacingError), str(e)[:80]]
+
+
+def construction_probe_outcomes():
+    return {k: run_probe(d, t) for k, d, t in construction_probes()}
+
+
+def run_construction_history(ctx, res, rng, fresh_sub):
+    thorough = ctx['tier'] == 'thorough' or ctx['escalate']
+    probes = construction_probes()
+    perturbers = perturber_descriptors()
+    sequences = [[d] for d in perturbers]
+    for _ in range(40 if thorough else 8):
+        sequences.append([rng.choice(perturbers) for _ in range(rng.randint(2, 4))])
+
+    failed, done = set(), []
+
+    def check(history, stage):
+        for k, (key, desc, text) in enumerate(probes):
+            if key in failed:          # reported once, with the complete list of what had been built until then
+                continue
+            if not thorough and history and (k + stage) % 3:
+                continue
+            got = run_probe(desc, text)
+            res.oracle_evals += 1
+            want_sub = (fresh_sub or {}).get('cons|' + key)
+            bad = None
+            if got != ['graded', True]:
+                bad = ('a freshly built %s asked for %r answers %r; the constants i, j, e, pi (and the default functions) have their '
+                       'standard values, so it must grade ok=True' % (desc['cls'], text, got))
+            elif want_sub is not None and got[:2] != want_sub[:2]:
+                bad = '%s asked for %r answers %r here and %r in a fresh interpreter' % (desc['cls'], text, got, want_sub)
+            if bad:
+                failed.add(key)
+                res.witnesses.append({'key': 'construction:%s' % key, 'kind': 'construction-history',
+                                      'history': list(done), 'last_sequence': history, 'probe': [desc, text], 'observed': got,
+                                      'what': bad})
+    check([], 0)          # before any perturber of this stream (but after every other stream of the run)
+    n = 0
+    for si, seq in enumerate(sequences):
+        for d in seq:
+            try:
+                with warnings.catch_warnings():
+                    warnings.simplefilter('ignore')
+                    g = build_perturber(d)
+                    g(None, d.get('input', '1'))
+            except Exception:      # noqa -- a perturber may legitimately refuse or raise; only what it leaves behind matters
+                pass
+            O.fp_check('construction/use of %r' % (d,))
+            done.append(d)
+            n += 1
+        check(list(seq), si)
+    res.distribution['construction_perturbers'] = n
+    res.distribution['construction_probes'] = len(probes)
 
 
 def hash_slot(a, b):
@@ -1274,7 +1416,8 @@ def run(ctx):
                                   'what': 'numpy error state %r -> %r after %s' % (before, after, label)})
     del O.FP_LEAKS[:]
     run_grader_options(ctx, res, cases_obs, random.Random(1000003 * ctx['seed'] + 1516))
-    run_history(ctx, res, random.Random(1000003 * ctx['seed'] + 1515))
+    fresh_sub = run_history(ctx, res, random.Random(1000003 * ctx['seed'] + 1515))
+    run_construction_history(ctx, res, random.Random(1000003 * ctx['seed'] + 1517), fresh_sub)
     fp_end = O.fp_state()
     fprows = ['(%s, %s)' % (listlit(['(%s, %s)' % (coq_string(k), coq_string(v)) for k, v in sorted(st[0].items())]),
                             boollit(st[1] == 'handle_np_floating_errors')) for st in (fp_start, fp_end)]
@@ -1296,7 +1439,7 @@ def run(ctx):
     # the driver files the first few witnesses: wrong values / nan first, then leaked state, then wrong error classes
     def rank(w):
         t = w.get('what', '')
-        if 'returned' in t or 'nan' in t or w.get('kind') in ('history', 'history-process', 'grader-option'):
+        if 'returned' in t or 'nan' in t or w.get('kind') in ('history', 'history-process', 'grader-option', 'construction-history'):
             return 0
         if w.get('kind') == 'fp-error-state-changed':
             return 1
@@ -1377,6 +1520,18 @@ def replay(w):
         here = list(history_step(ch, p, _graders()))
         sub = fresh_interpreter_outcomes() or {}
         return here != sub.get('%s|%s' % (ch, p)), 'probe %s(%r): %r here, %r in a fresh interpreter (the history of the original run is not reproduced by a replay)' % (ch, p, here, sub.get('%s|%s' % (ch, p)))
+    if kind == 'construction-history':
+        O.fp_capture_baseline()
+        desc, text = w['probe']
+        before = run_probe(desc, text)
+        for d in w['history']:
+            try:
+                build_perturber(d)(None, d.get('input', '1'))
+            except Exception:      # noqa
+                pass
+        after = run_probe(desc, text)
+        return after != ['graded', True], ('a fresh %s asked for %r: %r before and %r after building/using %r'
+                                           % (desc['cls'], text, before, after, w['history']))
     if kind == 'user-function':
         res = core.Result()
         O.fp_capture_baseline()
